@@ -388,6 +388,13 @@ func checkOmit(c *c15Case) {
 	}
 	rep.AddEval(1, 1)
 	rep.Count("omit.cases", 1)
+	if why := omitOffDisagree(c); why != "" {
+		// another deviation (a listed one: exact tag keys, []byte, uint64, float32 — the main streams
+		// name it with the model) already separates the encoders on this value with both options
+		// off: the omit comparison would not be about the omit options
+		rep.Count("omit.skipped_other_deviation", 1)
+		return
+	}
 	names := []string{"oj.JSON", "sen.String", "pretty.JSON", "alt.Decompose"}
 	for _, n := range names[1:] {
 		if strings.HasPrefix(outs[n], "unparsable") || strings.HasPrefix(outs[names[0]], "unparsable") {
@@ -400,13 +407,134 @@ func checkOmit(c *c15Case) {
 			rp[n] = outs[n]
 			f := lib.Finding{Kind: "violation", Class: class, Replay: rp,
 				What: fmt.Sprintf("with OmitNil=%v OmitEmpty=%v oj.JSON and %s describe different trees", c.spec.OmitNil, c.spec.OmitEmpty, n)}
-			if lib.HasKnown(knownList, "C15-omit-options") {
+			// the known finding is about WHICH empty members the omit options drop, nothing else: the
+			// trees must agree once every empty member (null, false, 0, "", [], {} — by anybody's
+			// definition, hereditarily) is taken out of both (and with both options off the encoders
+			// agree on this value: tested above)
+			why := omitExplained(c, outs[names[0]], outs[n])
+			if why == "" && lib.HasKnown(knownList, "C15-omit-options") {
 				f.Kind, f.KnownID = "known", "C15-omit-options"
+			} else if why != "" {
+				f.Class, f.What = class+":unexplained", f.What+" — not explained by C15-omit-options: "+why
 			}
 			rep.Add(f)
 			return
 		}
 	}
+}
+
+// pruneEmpty takes every member out of every object whose (pruned) value is empty by anybody's
+// definition: null, false, a zero number, "", [], {}.
+func pruneEmpty(n *lib.Node, strKeys map[string]bool) *lib.Node {
+	switch n.Kind {
+	case '[':
+		out := &lib.Node{Kind: '['}
+		for _, k := range n.Kids {
+			out.Kids = append(out.Kids, pruneEmpty(k, strKeys))
+		}
+		return out
+	case '{':
+		out := &lib.Node{Kind: '{'}
+		for i, k := range n.Kids {
+			p := pruneEmpty(k, strKeys)
+			if emptyNode(p) {
+				continue
+			}
+			// a zero scalar written under the `string` tag option
+			if p.Kind == 'S' && strKeys[n.Keys[i]] && (p.Text == lib.HexF([]byte("false")) || p.Text == lib.HexF([]byte("0"))) {
+				continue
+			}
+			out.Keys = append(out.Keys, n.Keys[i])
+			out.Kids = append(out.Kids, p)
+		}
+		return out
+	}
+	return n
+}
+
+func emptyNode(n *lib.Node) bool {
+	switch n.Kind {
+	case 'n', 'f':
+		return true
+	case 'I':
+		return n.Text == "0" || n.Text == "-0"
+	case 'F':
+		return strings.Trim(n.Text, "0") == "" || n.Text == "8000000000000000"
+	case 'S':
+		return n.Text == "-"
+	case '[', '{':
+		return len(n.Kids) == 0
+	}
+	return false
+}
+
+// stringTaggedKeys collects (in hex) the member names of the fields tagged with the `string` option.
+func stringTaggedKeys(rt reflect.Type, out map[string]bool, seen map[reflect.Type]bool) {
+	if seen[rt] {
+		return
+	}
+	seen[rt] = true
+	switch rt.Kind() {
+	case reflect.Ptr, reflect.Slice, reflect.Array, reflect.Map:
+		stringTaggedKeys(rt.Elem(), out, seen)
+	case reflect.Struct:
+		for i := 0; i < rt.NumField(); i++ {
+			f := rt.Field(i)
+			stringTaggedKeys(f.Type, out, seen)
+			tag, _ := f.Tag.Lookup("json")
+			parts := strings.Split(tag, ",")
+			for _, p := range parts[1:] {
+				if p == "string" {
+					for _, k := range []string{parts[0], f.Name, lowerKey(f.Name)} {
+						if k != "" {
+							out[lib.HexF([]byte(k))] = true
+						}
+					}
+				}
+			}
+		}
+	}
+}
+
+// omitExplained: "" when the disagreement of two encoders under OmitNil/OmitEmpty is of the kind the
+// known finding C15-omit-options describes, else why not.
+func omitExplained(c *c15Case, a, b string) string {
+	if !c.spec.OmitNil && !c.spec.OmitEmpty {
+		return "both options are off"
+	}
+	an, e1 := lib.ParseCanon(a)
+	bn, e2 := lib.ParseCanon(b)
+	if e1 != nil || e2 != nil {
+		return "an encoder failed: " + a + " / " + b
+	}
+	strKeys := map[string]bool{}
+	stringTaggedKeys(c.d.RT, strKeys, map[reflect.Type]bool{})
+	if pa, pb := pruneEmpty(an, strKeys).String(), pruneEmpty(bn, strKeys).String(); pa != pb {
+		return "the trees differ in more than empty members: " + pa + " / " + pb
+	}
+	return ""
+}
+
+// omitOffDisagree: with both omit options off the encoders do not agree on this value ("" when they do).
+func omitOffDisagree(c *c15Case) string {
+	s := c.spec
+	s.OmitNil, s.OmitEmpty = false, false
+	o := s.options()
+	arg := c.arg()
+	first := ""
+	for i := range encoders {
+		e := &encoders[i]
+		if e.indent || e.strict || e.name == "oj.Write" {
+			continue
+		}
+		got := outcome(e, arg, &o)
+		if first == "" {
+			first = got
+		} else if got != first {
+			return e.name
+		}
+	}
+	return ""
 }
 
 // ---- values outside the model: uint64 above int64, float32 outside struct fields -----------------
